@@ -143,6 +143,7 @@ pub fn build_image(case: &Case) -> Result<Image, String> {
         // (bytes of a later fragment spliced in after an earlier one still decode as a value)
         ops.push(Op::Batch(vec![(1000, Some(v(40_000, true))), (9000, Some(v(40_000 + (ch >> 8) as u32 % 3000, true)))]));
     }
+    let crafted_batch = ch % 8 == 4;
     // another quarter: a fresh WAL under a large memtable whose first 32 KiB block ends in a 1-6 byte
     // trailer, with further records (overwrites of keys stored in tables) in the second block
     if ch % 4 == 1 {
@@ -204,6 +205,14 @@ pub fn build_image(case: &Case) -> Result<Image, String> {
                 let mut staged = vec![];
                 for (s, val) in items {
                     match val {
+                        Some(val) if crafted_batch && val.len >= 40_000 => {
+                            // values made of one repeated byte that also reads as a batch element
+                            // (operation tag 1, length prefixes 1): whatever position a damaged log
+                            // reader resumes at inside them, the bytes decode as operations
+                            counter += 1;
+                            let fill = if staged.is_empty() { 7u8 } else { 1u8 };
+                            staged.push((key(*s), Some(vec![fill; val.len as usize])));
+                        }
                         Some(val) => {
                             counter += 1;
                             staged.push((key(*s), Some(make_value(counter, *val))));
@@ -322,8 +331,10 @@ pub struct CorruptViolation {
     pub swallowed: u64,
     /// the damaged byte is a length or type byte of a log fragment header of the manifest
     pub manifest_header: bool,
-    /// an invented value is never covered by a known finding
+    /// an invented value is never covered by the two findings above
     pub invented: bool,
+    /// the damaged byte is the type byte of a fragment header of the write-ahead log
+    pub wal_type_byte: bool,
 }
 
 fn mutate(fs: &MemFs, file: &str, m: &Mutation) -> bool {
@@ -364,6 +375,7 @@ pub fn eval_point(p: &CorruptPoint) -> Result<EvalInfo, CorruptViolation> {
                 swallowed,
                 invented,
                 manifest_header,
+                wal_type_byte: is_wal_type_byte(p),
             })
         }
     }
@@ -808,6 +820,19 @@ fn is_manifest_header_byte(p: &CorruptPoint) -> bool {
     false
 }
 
+/// The known finding `wal-fragment-type-byte-not-checksummed`: same root cause as the manifest one
+/// (the fragment checksum covers the payload only). A WAL fragment whose type byte is changed (e.g.
+/// Last -> Full) hands its payload - the middle of some record - to the batch decoder as if it were a
+/// record of its own; if those bytes happen to decode, entries that nobody wrote are applied.
+fn is_wal_type_byte(p: &CorruptPoint) -> bool {
+    if !p.file.contains("/wal/") {
+        return false;
+    }
+    let Mutation::Byte { offset, .. } = &p.mutation else { return false };
+    let Some(data) = p.image.files.get(&p.file) else { return false };
+    log_fragments(&data.0).iter().any(|(off, _, _)| *offset == off + 6)
+}
+
 fn touched(fs: &MemFs, file: &str, offset: usize) -> bool {
     fs.was_read(file, offset) || fs.was_read(file, offset.saturating_sub(1))
 }
@@ -839,6 +864,7 @@ pub fn guarded(p: &CorruptPoint) -> Outcome {
 
 const KNOWN_SWALLOW: &str = "counter:iter_error_swallowed>0";
 const KNOWN_HEADER: &str = "manifest-fragment-header-byte";
+const KNOWN_WAL_TYPE: &str = "wal-fragment-type-byte";
 
 pub fn replay_body(p: &CorruptPoint, msg: &str) -> Value {
     json!({"property": "C15", "engine": "corruptpoint", "point": p, "message": msg})
@@ -1043,6 +1069,12 @@ pub fn worker(ctx: &WorkerCtx) -> WorkerResult {
                     }
                     if v.manifest_header && !v.invented {
                         if let Some(k) = known.iter().find(|k| k.signature == KNOWN_HEADER) {
+                            *r.excluded_known.entry(k.id.clone()).or_insert(0) += 1;
+                            continue;
+                        }
+                    }
+                    if v.wal_type_byte {
+                        if let Some(k) = known.iter().find(|k| k.signature == KNOWN_WAL_TYPE) {
                             *r.excluded_known.entry(k.id.clone()).or_insert(0) += 1;
                             continue;
                         }
